@@ -19,6 +19,7 @@ From QV.Model Require Import IndexUtil Multinomial.
 Import ListNotations.
 Local Open Scope Z_scope.
 
+Definition zprod (l : list Z) : Z := fold_left Z.mul l 1.
 Definition np_mask_select {A} (x : list A) (mask : list bool) : list A := select mask x.
 
 Inductive pyres (A : Type) := PRet (a : A) | PRaise (exc : string).
@@ -104,6 +105,32 @@ Definition nd_ix_select (a : ndarray) (masks : list (list bool)) : ndarray :=
   let sh := map Z.to_nat (snd a) in
   (map (fun k => nth k (fst a) 0) (filter (fun k => all_sel masks (digitsn sh k)) (seq 0 (prodn sh))),
    map (fun m => Z.of_nat (List.length (filter (fun b : bool => b) m))) masks).
+(* a[i] on an n-d array: the i-th sub-array along the first axis (Python index rules); indexing a 0-d array raises IndexError.
+   v.reshape(shape) WITHOUT an invariant behind it (legacy ProbDist): ValueError when the sizes do not match (shapes of naturals) *)
+Definition nd_scalar (x : F) : ndarray := ([x], []).
+Definition nd_getitem (a : ndarray) (i : Z) : pyres ndarray :=
+  match snd a with
+  | [] => PRaise "IndexError"
+  | n :: t => match seq_pos n i with
+              | Some k => let m := Z.to_nat (zprod t) in PRet (firstn m (skipn (k * m)%nat (fst a)), t)
+              | None => PRaise "IndexError"
+              end
+  end.
+Definition nd_reshape_chk (v : list F) (shape : list Z) : pyres ndarray :=
+  if py_len v =? zprod shape then PRet (v, shape) else PRaise "ValueError".
+(* a legacy ProbDist object: ps and an optional shape, no validation *)
+Record probdist := mk_pd { pd_ps : list F; pd_shape : option (list Z) }.
+(* ProbDist.__getitem__ as coded *)
+Definition probdist_get (p : probdist) (a : index_arg) : pyres ndarray :=
+  match a with
+  | AInt i => pbind (py_getitem (pd_ps p) i) (fun x => PRet (nd_scalar x))
+  | ATuple t => match pd_shape p with
+                | None => PRaise "ValueError"
+                | Some sh => pbind (nd_reshape_chk (pd_ps p) sh) (fun arr => pfor t (fun i target => nd_getitem target i) arr)
+                end
+  | AOther => PRaise "TypeError"
+  end.
+
 (* np.sum(a) of an n-d array: all entries;  np.array(t)[mask] for a 1-d boolean mask: the selected entries in order *)
 Definition np_sum_all (a : ndarray) : F := lsum F (fst a).
 
